@@ -417,15 +417,21 @@ fn resp_tag(op: &Op) -> Option<u32> {
     })
 }
 
-fn single_resp(tag: u32, res: Res, marker: &str) -> Op {
+pub fn exop_value(marker: &str, binary: bool) -> Vec<u8> {
+    let mut v = if binary { vec![0x00, 0xff, 0xfe, 0x80] } else { vec![] };
+    v.extend_from_slice(marker.as_bytes());
+    v
+}
+
+fn single_resp(tag: u32, res: Res, marker: &str, binary: bool) -> Op {
     match tag {
-        1 => Op::BindResp(res, None),
+        1 => Op::BindResp(res, if binary { Some(vec![0xff, 0x00, 0x80]) } else { None }),
         7 => Op::ModifyResp(res),
         9 => Op::AddResp(res),
         11 => Op::DelResp(res),
         13 => Op::ModDnResp(res),
         15 => Op::CompareResp(res),
-        _ => Op::ExtResp(res, Some(format!("n:{}", marker).into_bytes()), Some(marker.as_bytes().to_vec())),
+        _ => Op::ExtResp(res, Some(format!("n:{}", marker).into_bytes()), Some(exop_value(marker, binary))),
     }
 }
 
@@ -973,7 +979,7 @@ impl World {
                 if plan.extra_res_ctrl {
                     ctrls.push(extra_ctl(&r.marker));
                 }
-                let m = Msg { id, op: single_resp(tag, res, &r.marker), controls: if ctrls.is_empty() { None } else { Some(ctrls) } };
+                let m = Msg { id, op: single_resp(tag, res, &r.marker, plan.binary_payload), controls: if ctrls.is_empty() { None } else { Some(ctrls) } };
                 self.push_frame(&m);
                 self.server.reqs[idx].done = true;
                 self.server.last_answered_single = Some((id, tag));
@@ -1039,7 +1045,7 @@ impl World {
             },
             BogusKind::DupCompleted => {
                 let (id, tag) = self.server.last_answered_single.unwrap();
-                Msg { id, op: single_resp(tag, res(id), "BOGUS"), controls: None }
+                Msg { id, op: single_resp(tag, res(id), "BOGUS", false), controls: None }
             }
             BogusKind::EntryAfterDone => {
                 let id = self.server.last_done_search.unwrap();
@@ -1307,7 +1313,7 @@ impl World {
                             self.judge_res(i, marker, &plan, r, obs, false);
                         }
                         if let Ret::Exop(_, n, v) = &obs.ret {
-                            if n.as_deref() != Some(&format!("n:{}", marker)) || v.as_deref() != Some(marker.as_bytes()) {
+                            if n.as_deref() != Some(&format!("n:{}", marker)) || v.as_deref() != Some(&exop_value(marker, plan.binary_payload)[..]) {
                                 self.v("route:exop-fields", format!("client {} exop name/value {:?}/{:?} for marker {}", i, n, v, marker));
                             }
                         }
